@@ -97,6 +97,11 @@ func canon(v reflect.Value, stripParen bool) *N {
 				continue
 			}
 			k.Static = strings.TrimPrefix(t.Field(i).Type.String(), "")
+			if t.Name() == "FuncType" && t.Field(i).Name == "Results" && k.Kind == "FieldList" && len(k.Kids) == 3 {
+				// the parentheses of a result list are optional around a single unnamed result and say nothing
+				// otherwise: "func f() error" and "func f() (error)" are the same declaration (C01, C04)
+				k.Kids[0], k.Kids[2] = &N{Kind: "leaf", Leaf: "P*"}, &N{Kind: "leaf", Leaf: "P*"}
+			}
 			n.Kids = append(n.Kids, k)
 		}
 		return n
@@ -297,15 +302,6 @@ func StripParens(n *N) *N {
 		// go/printer drops an empty result list "()" altogether
 		if r := c.Kids[3]; r.Kind == "FieldList" && len(r.Kids) == 3 && r.Kids[1].Kind == "[]" && len(r.Kids[1].Kids) == 0 {
 			c.Kids[3] = &N{Kind: "leaf", Leaf: "nil", Static: r.Static}
-		}
-		// go/printer drops the parentheses around a single unnamed result
-		if r := c.Kids[3]; r.Kind == "FieldList" && len(r.Kids) == 3 && r.Kids[1].Kind == "[]" && len(r.Kids[1].Kids) == 1 {
-			f := r.Kids[1].Kids[0]
-			if f.Kind == "Field" && len(f.Kids) > 0 && (f.Kids[0].Kind == "leaf" || len(f.Kids[0].Kids) == 0) {
-				r2 := *r
-				r2.Kids = []*N{{Kind: "leaf", Leaf: "P0"}, r.Kids[1], {Kind: "leaf", Leaf: "P0"}}
-				c.Kids[3] = &r2
-			}
 		}
 	}
 	return &c
